@@ -73,21 +73,23 @@ func valueDesc(kind, tok int) string {
 	return ""
 }
 
-// classSpec: property i is declared with type parameter i; member m < len(props) is the
-// direct store `$o->prop = x`, member m >= len(props) the typed method that stores into
-// property m-len(props) through $this.
+// classSpec: property i is declared with type parameter i. Members, in index order: the
+// direct stores `$o->prop = x` (via "prop"), the typed methods that store into the
+// property through $this (via "method"), and the typed methods that store nothing, so
+// that only the parameter declaration can reject (via "param").
 type classSpec struct {
 	name    string
 	params  []string
 	props   []string
-	methods []string
-	ctor    bool // the constructor stores its argument into props[0]
+	methods []string // methods[i](P_i $x) stores $x into props[i]
+	checks  []string // checks[i](P_i $x) only declares the parameter, it stores nothing
+	ctor    bool     // the constructor stores its argument into props[0]
 }
 
 var classes = []classSpec{
-	{name: "Box", params: []string{"T"}, props: []string{"v"}, methods: []string{"set"}},
-	{name: "Pair", params: []string{"K", "V"}, props: []string{"k", "v"}, methods: []string{"setK", "setV"}},
-	{name: "Cell", params: []string{"T"}, props: []string{"v"}, methods: []string{"set"}, ctor: true},
+	{name: "Box", params: []string{"T"}, props: []string{"v"}, methods: []string{"set"}, checks: []string{"take"}},
+	{name: "Pair", params: []string{"K", "V"}, props: []string{"k", "v"}, methods: []string{"setK", "setV"}, checks: []string{"takeK", "takeV"}},
+	{name: "Cell", params: []string{"T"}, props: []string{"v"}, methods: []string{"set"}, checks: []string{"take"}, ctor: true},
 }
 
 const (
@@ -108,19 +110,51 @@ func (c classSpec) decl(sfx string) string {
 	for i, m := range c.methods {
 		fmt.Fprintf(&sb, " public function %s(%s $x) { $this->%s = $x; return 1; }", m, c.params[i], c.props[i])
 	}
+	for i, m := range c.checks {
+		fmt.Fprintf(&sb, " public function %s(%s $x) { return 1; }", m, c.params[i])
+	}
 	sb.WriteString(" }\n")
 	return sb.String()
 }
 
-// member resolves a member index to (property index, via).
+// member resolves a member index to (property/parameter index, via).
 func (c classSpec) member(m int) (prop int, via string) {
 	if m < len(c.props) {
 		return m, "prop"
 	}
-	return m - len(c.props), "method"
+	if m < len(c.props)+len(c.methods) {
+		return m - len(c.props), "method"
+	}
+	return m - len(c.props) - len(c.methods), "param"
 }
 
-func (c classSpec) nMembers() int { return len(c.props) + len(c.methods) }
+// memberName is the property or method the member index denotes.
+func (c classSpec) memberName(m int) string {
+	p, via := c.member(m)
+	switch via {
+	case "prop":
+		return c.props[p]
+	case "method":
+		return c.methods[p]
+	}
+	return c.checks[p]
+}
+
+// nStoreMembers counts the members that store (direct stores and storing methods).
+func (c classSpec) nStoreMembers() int { return len(c.props) + len(c.methods) }
+
+// nMembers counts the members in use: the parameter-only methods are compared only when
+// the interpreter enforces method parameter types at all (calibrated at run time).
+func (c classSpec) nMembers() int {
+	if paramsEnforced {
+		return len(c.props) + len(c.methods) + len(c.checks)
+	}
+	return c.nStoreMembers()
+}
+
+// paramsEnforced: does this build of the interpreter reject a string for `int $x` of a
+// plain (non-generic) class's method? Set once by calibrate().
+var paramsEnforced bool
 
 // ---------------------------------------------------------------------------------
 // steps
@@ -162,11 +196,11 @@ func (q sequence) String() string {
 			parts = append(parts, t)
 		case 'W':
 			tc := classes[q.instClass(int(s.Inst))]
-			p, via := tc.member(int(s.Member))
+			_, via := tc.member(int(s.Member))
 			if via == "prop" {
-				parts = append(parts, fmt.Sprintf("#%d.%s=%s", s.Inst, tc.props[p], valNames[s.Val]))
+				parts = append(parts, fmt.Sprintf("#%d.%s=%s", s.Inst, tc.memberName(int(s.Member)), valNames[s.Val]))
 			} else {
-				parts = append(parts, fmt.Sprintf("#%d.%s(%s)", s.Inst, tc.methods[p], valNames[s.Val]))
+				parts = append(parts, fmt.Sprintf("#%d.%s(%s)", s.Inst, tc.memberName(int(s.Member)), valNames[s.Val]))
 			}
 		case 'R':
 			tc := classes[q.instClass(int(s.Inst))]
@@ -302,7 +336,7 @@ func renderSeq(sb *strings.Builder, sidx int, q sequence, sfx string) {
 			if via == "prop" {
 				stmt = fmt.Sprintf("%s->%s = %s;", v, c.props[p], lit)
 			} else {
-				stmt = fmt.Sprintf("%s->%s(%s);", v, c.methods[p], lit)
+				stmt = fmt.Sprintf("%s->%s(%s);", v, c.memberName(int(s.Member)), lit)
 			}
 			cur := fmt.Sprintf("desc(%s->%s)", v, c.props[p])
 			fmt.Fprintf(sb, "try { %s echo \"W %d %d accepted \", %s, \"\\n\"; } catch (\\Throwable $e) { echo \"W %d %d rejected \", %s, \" | \", $e->getMessage(), \"\\n\"; }\n",
@@ -342,8 +376,9 @@ func renderSingle(q sequence) string {
 
 // alphabet restricts the enumerated step vocabulary.
 type alphabet struct {
-	classes []int // classes that may be instantiated (cBox, cPair)
-	nVals   int   // value kinds 0..nVals-1
+	classes    []int // classes that may be instantiated (cBox, cPair)
+	nVals      int   // value kinds 0..nVals-1
+	withChecks bool  // also the parameter-only methods (when the interpreter enforces parameter types)
 }
 
 // nextSteps lists every step that may follow the prefix q (writes on any live instance,
@@ -378,7 +413,11 @@ func (a alphabet) nextSteps(q sequence) []step {
 			continue
 		}
 		c := classes[s.Class]
-		for m := 0; m < c.nMembers(); m++ {
+		nm := c.nStoreMembers()
+		if a.withChecks {
+			nm = c.nMembers()
+		}
+		for m := 0; m < nm; m++ {
 			for v := 0; v < a.nVals; v++ {
 				out = append(out, step{Op: 'W', Inst: int8(k), Member: int8(m), Val: int8(v)})
 			}
